@@ -13,6 +13,11 @@ def extra(report, fam, tier, seed):
     from contracts import format_levels
 
     report.guarded("format level mapping", format_levels.run, report, 3 if tier == "quick" else 4)
+    from contracts import c_header, tensor_method
+
+    report.guarded("C header macros", c_header.run, report)
+    # a tensor handed back without running the kernel (a short cut in the call wrapper) is not an assembled structure
+    report.guarded("TensorMethod.__call__ returns what the kernel built", tensor_method.run, report, ("result-comes-from-the-kernel",))
     from contracts import llvm_emitters
 
     # what is shown on the IR transfers to the LLVM kernels only if the arithmetic of the growth code means the same there
@@ -23,7 +28,7 @@ def check(argv):
     return run(
         "C02", argv, analyses=[], extra=extra,
         static_note="",
-        explanation="Kind A (LLVM arithmetic): the straight-line LLVM emitters denote the IR semantics (max/min, products, comparisons of the growth code). Kind B (merge-loop order, per problem): generate_subgraphs lists every subgraph after every subgraph it is a simplification of, the one without sparse operands last. Kind B (output set-up and hand-over): AppendOutput.write_declarations allocates every pos/crd/vals array with its capacity (exact where the levels above are dense), pos[0] = 0 and cursors 0; AppendOutput.write_cleanup hands back pos/crd of exactly the structure's size and vals covering every stored position - per mode vector, all dimensions, counts and capacities. Kind B (fragments): write_crd_assembly stores the coordinate at the cursor and preserves the prefix, write_pos_assembly writes pos[parent+1] = cursor and nothing else, write_pos_allocation leaves room for the next block - proved for all states and capacities on the fragments the real emitters produce for every mode vector up to order 4 (5 thorough). Kind C: the output of every evaluate kernel of the family, read back from the exact heap blocks of the reference machine, is checked "
+        explanation="Kind A (C header): TACO_MIN/TACO_MAX fully parenthesised (the merge of three sparse operands nests them). Kind B (call wrapper): every normal return of TensorMethod.__call__ hands back what the kernel built (allocate, kernel, take ownership - no short cut). Kind A (LLVM arithmetic): the straight-line LLVM emitters denote the IR semantics (max/min, products, comparisons of the growth code). Kind B (merge-loop order, per problem): generate_subgraphs lists every subgraph after every subgraph it is a simplification of, the one without sparse operands last. Kind B (output set-up and hand-over): AppendOutput.write_declarations allocates every pos/crd/vals array with its capacity (exact where the levels above are dense), pos[0] = 0 and cursors 0; AppendOutput.write_cleanup hands back pos/crd of exactly the structure's size and vals covering every stored position - per mode vector, all dimensions, counts and capacities. Kind B (fragments): write_crd_assembly stores the coordinate at the cursor and preserves the prefix, write_pos_assembly writes pos[parent+1] = cursor and nothing else, write_pos_allocation leaves room for the next block - proved for all states and capacities on the fragments the real emitters produce for every mode vector up to order 4 (5 thorough). Kind C: the output of every evaluate kernel of the family, read back from the exact heap blocks of the reference machine, is checked "
                     "against wf_taco written from the property statement (pos[0]=0, monotone, exactly parent positions + 1 entries; crd strictly increasing per "
                     "segment and in range, exactly pos[-1] entries; vals covers every stored position), with initial capacities 1.. so growth and shrink paths run.",
     )
